@@ -191,13 +191,18 @@ pub fn alpha(name: &str) -> Alpha {
             run: Box::new(move |hist, props, _verbose| conv(f(&ops2, hist, props))),
         };
     }
-    let ops = alphabet(name);
+    // "name@k": the same alphabet with arena address salt k (table iteration order is address dependent)
+    let (base, salt) = match name.split_once('@') {
+        Some((b, k)) => (b, k.parse::<usize>().expect("salt")),
+        None => (name, 0),
+    };
+    let ops = alphabet(base);
     let ops2 = ops.clone();
     Alpha {
         n: ops.len(),
         kinds: ops.iter().map(|o| o.kind()).collect(),
         names: ops.iter().map(|o| format!("{:?}", o)).collect(),
-        run: Box::new(move |hist, props, verbose| run_one(&RunCfg { ops: &ops2, props, salt: 0, check_all_steps: false, verbose }, hist)),
+        run: Box::new(move |hist, props, verbose| run_one(&RunCfg { ops: &ops2, props, salt, check_all_steps: false, verbose }, hist)),
     }
 }
 
@@ -330,7 +335,7 @@ fn default_configs(prop: Prop, tier: &str) -> Vec<(&'static str, usize)> {
     let q = tier == "quick";
     match prop {
         Prop::C01 => {
-            if q { vec![("shape", 7), ("alloc", 8), ("copy", 7), ("all", 3), ("zbig", 6), ("w8", 5), ("w10", 5)] } else { vec![("shape", 8), ("alloc", 10), ("copy", 8), ("all", 4), ("zbig", 7), ("w8", 7), ("w10", 7)] }
+            if q { vec![("shape", 7), ("alloc", 8), ("copy", 7), ("all", 3), ("zbig", 6), ("w8", 5), ("w10", 5)] } else { vec![("shape", 8), ("alloc", 10), ("copy", 8), ("all", 4), ("zbig", 7), ("w8", 7), ("w10", 7), ("copy@3", 6), ("shape@5", 6)] }
         }
         Prop::C02 => {
             if q { vec![("alloc", 8), ("stale", 7), ("copy", 7), ("shape", 6), ("all", 3), ("w8", 5), ("w10", 5)] } else { vec![("alloc", 10), ("stale", 8), ("copy", 8), ("shape", 7), ("all", 4), ("w8", 7), ("w10", 7)] }
@@ -342,16 +347,16 @@ fn default_configs(prop: Prop, tier: &str) -> Vec<(&'static str, usize)> {
             if q { vec![("zbig", 7), ("shape", 7), ("copy", 7), ("alloc", 7), ("all", 3), ("w8", 5), ("w10", 5)] } else { vec![("zbig", 8), ("shape", 8), ("copy", 8), ("alloc", 9), ("all", 4), ("w8", 7), ("w10", 7)] }
         }
         Prop::C13 => {
-            if q { vec![("alloc", 8), ("shape", 7), ("copy", 7), ("stale", 6), ("all", 3), ("zbig", 6), ("w8", 5), ("w10", 5)] } else { vec![("alloc", 10), ("shape", 8), ("copy", 8), ("stale", 8), ("all", 4), ("zbig", 7), ("w8", 7), ("w10", 7)] }
+            if q { vec![("alloc", 8), ("shape", 7), ("copy", 7), ("stale", 6), ("all", 3), ("zbig", 6), ("w8", 5), ("w10", 5)] } else { vec![("alloc", 10), ("shape", 8), ("copy", 8), ("stale", 8), ("all", 4), ("zbig", 7), ("w8", 7), ("w10", 7), ("copy@3", 6), ("all@9", 3)] }
         }
         Prop::C15 => {
             if q { vec![("res", 9), ("all", 3), ("copy", 6)] } else { vec![("res", 11), ("all", 4), ("copy", 7)] }
         }
         Prop::C06 => {
-            if q { vec![("twin", 7), ("copy", 7), ("alloc", 8), ("w8", 5), ("w10", 5)] } else { vec![("twin", 8), ("copy", 8), ("alloc", 10), ("all", 4), ("w8", 7), ("w10", 7)] }
+            if q { vec![("twin", 7), ("copy", 7), ("alloc", 8), ("w8", 5), ("w10", 5)] } else { vec![("twin", 8), ("copy", 8), ("alloc", 10), ("all", 4), ("w8", 7), ("w10", 7), ("twin@3", 6), ("copy@7", 6)] }
         }
         Prop::C10 => {
-            if q { vec![("ctwin", 7), ("copy", 7), ("all", 3)] } else { vec![("ctwin", 8), ("copy", 8), ("all", 4)] }
+            if q { vec![("ctwin", 7), ("copy", 7), ("all", 3)] } else { vec![("ctwin", 8), ("copy", 8), ("all", 4), ("ctwin@3", 6), ("copy@5", 6)] }
         }
         Prop::C16 => vec![("copy", 3)],
     }
